@@ -27,6 +27,10 @@ ASSUMPTIONS = [
     "at most 128 distinct SQL texts per connection (CPython statement cache never evicts)",
     "the model has one parameter order per method (the documented one); the calling convention (positional / keyword / "
     "mixed / shortest call) is a dimension of the correspondence and of the oracle only",
+    "collaborator faults: the j-th execute()/commit() of a call raising sqlite3.OperationalError / DataError (once, instead of "
+    "the call) is modelled (Prog.runInj, SRes.fault, Op.commitFail) and compared in the correspondence, but no theorem "
+    "quantifies over faults; the clause 'a call that raised changed nothing observable, now or after the next commit' is "
+    "checked by the reference-map oracle only; real DataError (connection length limit + oversized frames) is oracle only",
 ]
 MODELLED_NOT_VERIFIED = [
     "C13: CPython int(bytes) (whitespace, sign, single underscores, 4300-digit limit), bytes.index; sqlite3 module "
@@ -78,7 +82,80 @@ def exc_kind(e):
         return "Integrity"
     if isinstance(e, StopIteration):
         return "StopIteration"
+    if isinstance(e, sqlite3.OperationalError):
+        return "Operational"
+    if isinstance(e, sqlite3.DataError):
+        return "Data"
     return "Other:" + type(e).__name__
+
+
+# ----------------------------------------------------------------------------------------------
+# collaborator faults: a wrapper around the journal's sqlite3 connection / cursor (installed from outside, on the
+# attributes) that makes the j-th execute()/commit() of the next method call raise a chosen sqlite3 error – once,
+# instead of performing the call; rollback() is never faulted
+# ----------------------------------------------------------------------------------------------
+FAULT_KINDS = ["Operational", "Data"]
+
+
+def fault_exc(kind):
+    import sqlite3
+
+    return sqlite3.DataError("string or blob too big") if kind == "Data" else \
+        sqlite3.OperationalError("database or disk is full")
+
+
+class Injector:
+    def __init__(self):
+        self.n, self.at, self.kind, self.fired = 0, None, None, None
+
+    def arm(self, at, kind):
+        self.n, self.at, self.kind, self.fired = 0, at, kind, None
+
+    def disarm(self):
+        self.at = None
+
+    def hit(self, what):
+        if self.at is not None:
+            if self.n == self.at:
+                self.at, self.fired = None, (self.n, what)
+                raise fault_exc(self.kind)
+            self.n += 1
+
+
+class FaultCursor:
+    def __init__(self, cur, inj):
+        self._c, self._i = cur, inj
+
+    def execute(self, sql, *a, **kw):
+        self._i.hit(str(sql).split(" ")[0].upper())
+        return self._c.execute(sql, *a, **kw)
+
+    def __iter__(self):
+        return iter(self._c)
+
+    def __next__(self):
+        return next(self._c)
+
+    def __getattr__(self, name):
+        return getattr(self._c, name)
+
+
+class FaultConn:
+    def __init__(self, conn, inj):
+        self._c, self._i = conn, inj
+
+    def commit(self):
+        self._i.hit("COMMIT")
+        return self._c.commit()
+
+    def __getattr__(self, name):
+        return getattr(self._c, name)
+
+
+def wrap_faults(j, inj):
+    j.conn = FaultConn(j.conn, inj)
+    j.cursor = FaultCursor(j.cursor, inj)
+    return j
 
 
 def btok(b):
@@ -183,7 +260,9 @@ class Impl:
 
         self.J = Journaler
         self.path = path
-        self.j = Journaler(path)
+        self.inj = Injector()
+        self.fired = []     # (index of the driver line, SQL verb) of every injected fault that was raised
+        self.j = wrap_faults(Journaler(path), self.inj)
         self.pool = []
         self.lines = ["jrn.start -"]
         self.out = ["none tx=0"]
@@ -210,8 +289,15 @@ class Impl:
             r = fmt(fn())
         except Exception as e:  # noqa
             r = "e " + exc_kind(e)
+        self.note_fault()
         self.out.append(r + self.tx())
         return r
+
+    def note_fault(self):
+        if self.inj.fired is not None:
+            self.fired.append((len(self.lines) - 1, self.inj.fired[1]))
+            self.inj.fired = None
+        self.inj.disarm()
 
     def step(self, op):
         from asyncfix.message import MessageDirection as D
@@ -241,6 +327,18 @@ class Impl:
             return self.emit(
                 "jrn.sessions", f,
                 lambda d: "d " + ",".join(f"{C.hx(kk[0])}/{C.hx(kk[1])}={hstr(v)}" for kk, v in d.items()))
+        if k == "fault":
+            _, at, kind = op
+            self.inj.arm(at, kind)
+            self.lines.append(f"jrn.fault {at} {kind}")
+            self.out.append("ok")
+            return None
+        if k == "limit":
+            import sqlite3
+
+            # a real storage limit on this connection (not part of the model: used by the oracles only)
+            self.j.conn.setlimit(sqlite3.SQLITE_LIMIT_LENGTH, op[1])
+            return None
         if k == "fab":
             _, key, o, i = op
             s = FIXSession(key, "F", "F")
@@ -264,6 +362,7 @@ class Impl:
                 r = "ok"
             except Exception as e:  # noqa
                 r = exc_kind(e)
+            self.note_fault()
             r = f"s {h.next_num_out}:{h.next_num_in} {r}"
             self.out.append(r + self.tx())
             return r
@@ -296,7 +395,7 @@ class Impl:
             if self.path is None:
                 return None
             self.close()
-            self.j = self.J(self.path)
+            self.j = wrap_faults(self.J(self.path), self.inj)
             self.lines.append("jrn.restart -")
             self.out.append("none" + self.tx())
             return None
@@ -557,7 +656,13 @@ def gen_sequence(rng, maxlen, file_backed=False):
                 ("rec", ref, d, -I63, I63 - 1)]
         ops += tail
     ops.append(("obs",))
-    return [with_conv(rng, op) if op[0] in ("col", "persist", "set", "rec", "rec1", "getall") else op for op in ops]
+    out = []
+    for op in ops:
+        if op[0] in ("col", "persist", "set", "rec", "rec1", "getall", "sessions") and rng.random() < 0.05:
+            # collaborator fault: the j-th execute()/commit() of this call raises an sqlite3 error, once
+            out.append(("fault", rng.choice([0, 0, 1, 1, 2, 3]), rng.choice(FAULT_KINDS)))
+        out.append(with_conv(rng, op) if op[0] in ("col", "persist", "set", "rec", "rec1", "getall") else op)
+    return out
 
 
 def mktmp(prefix):
@@ -813,14 +918,24 @@ def oracle_sequence(rng, maxlen):
         pairs = [("T", "S"), ("S", "T"), rng.choice(PAIRS[2:])]
     ops = [("col",) + p for p in pairs]
     st = {"desc": rng.choice([30, 2**31 + 9, 2**62 + 9])}
+    limit = rng.random() < 0.12
+    if limit:
+        # a real storage limit on the journal's connection: frames above it make SQLite raise DataError itself
+        ops.append(("limit", 1500))
     for _ in range(rng.randint(4, maxlen)):
         v = rng.random()
         sid = rng.randint(1, len(pairs))
+        if rng.random() < 0.12:
+            # collaborator fault on the next call: its j-th execute()/commit() raises an sqlite3 error, once
+            ops.append(("fault", rng.choice([0, 0, 1, 1, 2, 3]), rng.choice(FAULT_KINDS)))
         if v < 0.5:
             n = rng.choice(DIGIT_EDGES) if rng.random() < 0.3 else pick_num(rng, st)
             while not (-I63 <= n < I63):
                 n = pick_num(rng, st)
-            ops.append(("persist", sid, rng.randint(0, 1), n, frame(rng, num_text(rng, n)).hex()))
+            content = frame_content(rng)
+            if limit and rng.random() < 0.4:
+                content[1].add("large")
+            ops.append(("persist", sid, rng.randint(0, 1), n, frame(rng, num_text(rng, n), content=content).hex()))
         elif v < 0.62:
             ops.append(("set", sid, rng.choice([None, 1, 2, 3, 6, 9, 11, 2**31, 2**62, 0, I63 + 1]),
                         rng.choice([None, 1, 2, 4, 10, 2**31, -1, I63 + 7])))
@@ -835,9 +950,10 @@ def oracle_sequence(rng, maxlen):
             # int and str bounds, independently (so also mixed), str in several spellings
             ops.append(("rec", sid, rng.randint(0, 1), render_bound(rng, lo), render_bound(rng, hi)))
         else:
-            ops.append(("col",) + rng.choice(pairs))
+            # re-load an existing pair, or (sometimes) create a new one in the middle of the history
+            ops.append(("col",) + (rng.choice(pairs) if rng.random() < 0.7 else ("N%d" % rng.randint(0, 3), "X")))
     ops.append(("col",) + rng.choice(pairs))   # every sequence re-loads at least one existing pair
-    return [with_conv(rng, op) for op in ops]
+    return [with_conv(rng, op) if op[0] not in ("fault", "limit") else op for op in ops]
 
 
 def strict_seq(msg):
@@ -870,10 +986,15 @@ def convert(ops):
         return pool[ref] if ref < len(pool) else pool[ref % len(pool)]
 
     rng_ok = lambda x: isinstance(x, int) and not isinstance(x, bool) and -I63 <= x < I63  # noqa
+    pending = []
     for op0 in ops:
         conv, op = conv_of(op0)
         tag = () if conv == "std" else ("@" + conv,)
         k = op[0]
+        n_before = len(out)
+        if k == "fault":
+            pending = [tuple(op)]
+            continue
         if k == "col":
             pair = (op[1], op[2])
             ids.setdefault(pair, len(ids) + 1)
@@ -899,6 +1020,10 @@ def convert(ops):
             sid = slot(op[1])
             if sid is not None and bound_value(op[3]) is not None:
                 out.append(("rec", sid, op[2], op[3], op[3]) + tag)
+        if len(out) > n_before and pending:
+            out[n_before:n_before] = pending      # the fault stays in front of the call it was armed for
+        if k not in ("obs",):
+            pending = []
     return out
 
 
@@ -909,11 +1034,16 @@ def oracle_run(ops):
     from asyncfix.journaler import Journaler
     from asyncfix.message import MessageDirection as D
 
-    j = Journaler(None)
+    import sqlite3
+
+    inj = Injector()
+    j = wrap_faults(Journaler(None), inj)
     ref = Ref()
     handles = {}
     fails = []
     half = {"seen": False}
+    fault = {"ctx": None, "limit": None}
+    METHOD = {"col": "create_or_load", "persist": "persist_msg", "set": "set_seq_num", "rec": "recover_messages"}
 
     def dirv(d):
         return D.OUTBOUND if d == 1 else D.INBOUND
@@ -932,6 +1062,9 @@ def oracle_run(ops):
             if (b.next_num_out, b.next_num_in) != (o + 1, i + 1):
                 fails.append(("C13-counter-mismatch", "stored next numbers differ from the reference counters",
                               {"where": where, "pair": [t, s], "expected": [o + 1, i + 1], "observed": [b.next_num_out, b.next_num_in]}))
+        if set(ses.keys()) != set(ref.ids.keys()):
+            fails.append(("C13-sessions-mismatch", "sessions() lists other CompID pairs than were created",
+                          {"where": where, "expected": sorted(map(list, ref.ids)), "observed": sorted(map(list, ses))}))
         rows = j.get_all_msgs()
         want = [(k[2], m, k[1], k[0]) for k, m in ref.store.items()]
         if sorted(rows) != sorted(want):
@@ -940,6 +1073,13 @@ def oracle_run(ops):
     for idx, op0 in enumerate(ops):
         conv, op = conv_of(op0)
         k = op[0]
+        if k == "fault":
+            inj.arm(op[1], op[2])
+            continue
+        if k == "limit":
+            j.conn.setlimit(sqlite3.SQLITE_LIMIT_LENGTH, op[1])
+            fault["limit"] = op[1]
+            continue
         try:
             if k == "col":
                 h = call_col(j, op[1], op[2], conv)
@@ -1000,14 +1140,32 @@ def oracle_run(ops):
                 one = call_rec1(j, h, dirv(d), lo, conv)
                 if one != ref.store.get((sid, d, lov)):
                     fails.append(("C13-recover-msg-mismatch", "recover_msg differs from the reference map", {"at": idx, "seq": lo}))
+        except (sqlite3.OperationalError, sqlite3.DataError) as e:
+            # a failing collaborator: the injected fault, or SQLite's own DataError under the length limit.
+            # Clause: a call that raised changed nothing observable – now (check_state below, reference unchanged)
+            # or after the next commit (every later check_state)
+            if inj.fired is not None:
+                fault["ctx"] = f"{METHOD.get(k, k)}:{inj.fired[1]}"
+            elif fault["limit"] is not None and isinstance(e, sqlite3.DataError):
+                fault["ctx"] = f"{METHOD.get(k, k)}:oversized"
+            else:
+                fails.append((f"C13-foreign-exception:{type(e).__name__}", "an unexpected exception on a clean operation",
+                              {"at": idx, "op": list(op)[:4]}))
+                break
         except Exception as e:  # noqa
             fails.append((f"C13-foreign-exception:{type(e).__name__}", "an unexpected exception on a clean operation", {"at": idx, "op": list(op)[:4]}))
             break
+        inj.disarm()
+        inj.fired = None
         n0 = len(fails)
         check_state(idx)
         if len(fails) > n0 or fails:
             break
     del j
+    if fault["ctx"] and fails:
+        # input class: after a call that failed because its collaborator (the SQLite connection) failed
+        fails = [(f"C13-fault:{fault['ctx']}:{f[0][4:]}", "after a call that raised because a statement failed "
+                  f"({fault['ctx']}) – a failed call must change nothing, now or after the next commit: " + f[1], f[2]) for f in fails]
     if half["seen"]:
         # input class of the former finding (fixed by 493a9a7): a set_seq_num whose effective next number is 2**63
         fails = [("C13-set-seq-num-overflow-half-applied", "set_seq_num raised OverflowError after changing the counters "
